@@ -26,6 +26,11 @@ def make_policy(p):
     return scpsim.FaultSim(p["plan"], exact=p.get("exact", ()), max_selects=p.get("max_selects", 20000))
 
 
+def call_send_scp(conn, f, op):
+    return conn.send_scp(256, f["x"], f["y"], f["p"], f["cmd"], f["arg1"], f["arg2"], f["arg3"],
+                         f["data"], expected_args=op["nargs"], timeout=op["extra"])
+
+
 def canon_log(net, lo):
     out = []
     for e in net.log[lo:]:
@@ -61,7 +66,8 @@ def run_case(c):
             try:
                 if op["op"] == "burst":
                     def calls():
-                        for cid, extra in op["cmds"]:
+                        first, n, rextra = op.get("cmds_range", [0, 0, 0])
+                        for cid, extra in op["cmds"] + [[first + i, rextra] for i in range(n)]:
                             def cb(packet, cid=cid):
                                 net.log.append(["cb", cid, bytes(packet)])
                             f = scpsim.cmd_fields(cid)
@@ -70,8 +76,20 @@ def run_case(c):
                     conn.send_scp_burst(256, op["window"], calls())
                 else:
                     f = scpsim.cmd_fields(op["id"])
-                    p = conn.send_scp(256, f["x"], f["y"], f["p"], f["cmd"], f["arg1"], f["arg2"], f["arg3"],
-                                      f["data"], expected_args=op["nargs"], timeout=op["extra"])
+                    # send_scp's callback is internal (it parses the reply with SCPPacket.from_bytestring and
+                    # keeps it): observe its invocation by wrapping that class method from outside
+                    real_packet = scp_connection.SCPPacket
+
+                    class ObservedSCPPacket(real_packet):
+                        @classmethod
+                        def from_bytestring(cls, data, n_args=3):
+                            net.log.append(["cb", op["id"], bytes(data)])
+                            return real_packet.from_bytestring(data, n_args=n_args)
+                    scp_connection.SCPPacket = ObservedSCPPacket
+                    try:
+                        p = call_send_scp(conn, f, op)
+                    finally:
+                        scp_connection.SCPPacket = real_packet
                     args = [p.arg1, p.arg2, p.arg3][:op["nargs"]]
                     ret = dict(cmd_rc=int(p.cmd_rc), seq=int(p.seq), args=[None if a is None else int(a) for a in args],
                                rest=[p.arg1, p.arg2, p.arg3][op["nargs"]:], data=bytes(p.data).hex())
@@ -85,15 +103,6 @@ def run_case(c):
             except Exception as e:                               # noqa
                 outcome = ["other", type(e).__name__, str(e)[:200]]
             trace = canon_log(net, lo)
-            if op["op"] == "scp" and outcome == ["return"]:
-                # send_scp's callback is internal: it is observed through the packet returned.  The burst loop
-                # invokes callbacks after the fill phase of the iteration that follows the reply, i.e. just
-                # before the last select of the call.
-                last = max(i for i, t in enumerate(trace) if t[0] == "select")
-                import struct
-                payload = b"".join(struct.pack("<I", a) for a in ret["args"]) + bytes.fromhex(ret["data"])
-                src = struct.unpack_from("<I", payload)[0] if len(payload) >= 4 else -1
-                trace.insert(last, ["cb", op["id"], ret["cmd_rc"], ret["seq"], src])
             bursts.append(dict(trace=trace, outcome=outcome, start=start, ret=ret,
                                events=[[[dg(b) for b in ds], t] for ds, t in net.events[elo:]],
                                raw_replies=[[b.hex() for b in ds] for ds, t in net.events[elo:]]
